@@ -343,6 +343,23 @@ def run_cases(cases, tag, features=(), ic=False, release=True, shards=8, runner_
     return by_id_impl, by_id_model, by_id_min
 
 
+def run_harness_only(cases, tag, features=(), release=True):
+    """Crate side only (for inputs that are too large for the model's list-based maps)."""
+    os.makedirs(WORK, exist_ok=True)
+    exe = build_harness(features, release)
+    base = os.path.join(WORK, tag + ".solo")
+    with open(base + ".cases", "w", encoding="utf-8") as f:
+        for c in cases:
+            f.write(json.dumps(c, ensure_ascii=False) + "\n")
+    p = subprocess.run([exe, base + ".impl", base + ".min"], stdin=open(base + ".cases", "rb"),
+                       stdout=subprocess.PIPE, stderr=subprocess.STDOUT, timeout=3600)
+    if p.returncode != 0:
+        raise BuildError("harness run failed", p.stdout.decode("utf-8", "replace")[-4000:])
+    impl = open(base + ".impl", encoding="utf-8").read().splitlines()
+    os.remove(base + ".min")
+    return {c["id"]: a for c, a in zip(cases, impl)}
+
+
 # ------------------------------------------------------------------ sexp reading (results)
 def parse_sexp(s):
     pos = 0
@@ -478,7 +495,7 @@ class Check:
             self.coverage["samples"].append(obj)
 
     def violation(self, payload, no_input=False):
-        blob = json.dumps(payload, ensure_ascii=False, sort_keys=True, indent=1)
+        blob = json.dumps(payload, ensure_ascii=False, sort_keys=True, indent=1, default=repr)
         h = hashlib.sha1(blob.encode()).hexdigest()[:12]
         path = os.path.join(REPLAYS, "%s-%s.json" % (self.prop, h))
         with open(path, "w", encoding="utf-8") as f:
@@ -591,7 +608,7 @@ class Check:
         if cov["distinct_nontrivial"] < 2 and cov["evaluations"] >= 2:
             cov["distinct_nontrivial"] = cov["distinct_nontrivial"]
         with open(os.path.join(EVID, self.prop + ".json"), "w", encoding="utf-8") as f:
-            json.dump(ev, f, ensure_ascii=False, indent=1)
+            json.dump(ev, f, ensure_ascii=False, indent=1, default=repr)
         for line in self.known_lines:
             print(line)
         seen = set()
